@@ -65,6 +65,7 @@ type Contract struct {
 	Ensures  []Clause
 	Splits   []SplitSpec
 	Loops    map[int]*LoopSpec
+	Foreach  map[int]*LoopSpec // invariants of the k-th X.ForEach(func literal) call, executed as a loop over an unknown number of elements
 	Modifies []string
 	Trusted  bool
 	Pure     bool     // does not modify the pointees of its pointer parameters (checked: frame obligation)
@@ -83,6 +84,7 @@ type ContractFile struct {
 var parseTier = "quick"
 
 var reLoop = regexp.MustCompile(`^loop\s+(\d+)\s*:\s*(\w+)\s*(.*)$`)
+var reForeach = regexp.MustCompile(`^foreach\s+(\d+)\s*:\s*invariant\s+(.*)$`)
 
 func parseContractFile(path string) (*ContractFile, error) {
 	data, err := os.ReadFile(path)
@@ -227,6 +229,23 @@ func parseContractFile(path string) (*ContractFile, error) {
 			default:
 				return nil, fmt.Errorf("%s:%d: unknown loop clause %q", path, lineNo, m[2])
 			}
+		case "foreach":
+			m := reForeach.FindStringSubmatch(body)
+			if m == nil {
+				return nil, fmt.Errorf("%s:%d: foreach N: invariant E", path, lineNo)
+			}
+			n, _ := strconv.Atoi(m[1])
+			e, err := parseCExpr(m[2])
+			if err != nil {
+				return nil, fmt.Errorf("%s:%d: %v in %q", path, lineNo, err, m[2])
+			}
+			if cur.Foreach == nil {
+				cur.Foreach = map[int]*LoopSpec{}
+			}
+			if cur.Foreach[n] == nil {
+				cur.Foreach[n] = &LoopSpec{}
+			}
+			cur.Foreach[n].Invariants = append(cur.Foreach[n].Invariants, Clause{Text: m[2], Expr: e, Line: lineNo})
 		case "modifies":
 			for _, p := range strings.Split(rest, ",") {
 				cur.Modifies = append(cur.Modifies, strings.TrimSpace(p))
